@@ -36,6 +36,9 @@ MessageEvents(tr) == SelectSeq(tr, LAMBDA r : r.k = "ev" /\ r.name \in MessageEv
 Pos(tr, P(_)) == FirstIdx(tr, P)
 EvNames(tr) == NamesOf(Events(tr))
 
+\* an application close() that was carried out (a close() refused with ValueError - unsendable reason - starts nothing)
+IsCloseCall(r) == r.k = "call" /\ r.m = "close" /\ r.res = "ok"
+
 \* does message event e carry reference message m (same kind, same content)?
 EventMatches(e, m) ==
   CASE m.op = OpText  -> /\ e.name = "text" /\ e.isstr /\ e.pl = m.pl
